@@ -21,10 +21,10 @@ type sgOpts struct {
 	// TopLexFirst: all top-level let/const/class declarations come first and run no code of their own. Bundlers do not
 	// preserve the temporal dead zone of top-level bindings (esbuild turns them into var), so bundle workloads avoid it.
 	TopLexFirst bool
-	NoEval   bool
-	NoWith   bool
-	Pool     []string
-	MaxDepth int
+	NoEval      bool
+	NoWith      bool
+	Pool        []string
+	MaxDepth    int
 }
 
 type sgScope struct {
@@ -43,17 +43,17 @@ type sgScope struct {
 }
 
 type scopegen struct {
-	rng    *Rng
-	o      sgOpts
-	b      strings.Builder
-	u      int // unique values
-	k      int // probe ids
-	indent int
-	depth  int
-	nodes  int
-	decls  int
-	labels []string
-	export map[string]bool
+	rng      *Rng
+	o        sgOpts
+	b        strings.Builder
+	u        int // unique values
+	k        int // probe ids
+	indent   int
+	depth    int
+	nodes    int
+	decls    int
+	labels   []string
+	export   map[string]bool
 	noTopLex bool
 }
 
